@@ -51,6 +51,7 @@ def main():
     ap.add_argument("--props")
     ap.add_argument("--tests", action="store_true")
     ap.add_argument("-j", type=int, default=4)
+    ap.add_argument("--json")
     a = ap.parse_args()
     ms = load()
     if a.only:
@@ -59,6 +60,7 @@ def main():
     if pf:
         ms = [m for m in ms if set(m["expect"]) & set(pf)]
     killed = survived = undec = 0
+    matrix = []
     with ThreadPoolExecutor(max_workers=a.j) as ex:
         for mid, res in ex.map(lambda m: run_one(m, pf, a.tests), ms):
             for prop, r in res.items():
@@ -71,7 +73,10 @@ def main():
                 survived += r["exit"] == 0
                 undec += r["exit"] == 2
                 print("%-32s %s %-9s %s %s" % (mid, prop, st, res.get("_tests", ""), (r["lines"][0] if r["lines"] else "")[:150]))
+                matrix.append({"mutant": mid, "property": prop, "result": st, "by": (r["lines"][0] if r["lines"] else "")[:200]})
     print("killed=%d survived=%d undecided=%d" % (killed, survived, undec))
+    if a.json:
+        json.dump({"killed": killed, "survived": survived, "undecided": undec, "matrix": matrix}, open(a.json, "w"), indent=1)
 
 
 if __name__ == "__main__":
